@@ -130,6 +130,38 @@ CLAIMED = {
         "numeric penalty values are taken from the public penalty functions (C15).",
         "TLA+ operator-level refinement checked with TLC + spec-to-code replay + trace validation",
     ),
+    "C01": (
+        "7/C01",
+        "CostsDefs.tla, Costs.tla, Trace_Costs.tla",
+        "TLC checks on the fitted-state model of the costs (zero-first-row prefix arrays, stored data, "
+        "prefix and slice kernels, histories of evaluate calls with batches) that the kernels' differences "
+        "of prefix rows equal the direct sums over the rows of the slice, that evaluate never changes the "
+        "fitted state and that every row ever returned equals the definition whatever the batch or history; "
+        "TLC then emits the exact sufficient statistics (length, sums, cross moments, scatter determinant) "
+        "of every slice of every lattice matrix, and every built-in cost in both parameter modes (scalar and "
+        "per-column parameters, PD covariances) is evaluated in several batch orders and compared with the "
+        "closed form of the property applied to those statistics (exactly singular slices: RuntimeError or "
+        "finite); larger lattice data are validated by TLC (Trace_Costs: exact rationals, recovered "
+        "variance / determinant).",
+        "math.log is applied on the specification side to TLC's exact arguments (trusted); exhaustive for "
+        "n<=5/6 with entries -1..2; prefix-sum rounding on data of large dynamic range and the numba builds "
+        "of the kernels are outside this check.",
+        "TLA+ fitted-state model checked with TLC + exact-statistics replay + trace validation",
+    ),
+    "C06": (
+        "7/C06",
+        "CostsDefs.tla, Costs.tla (Identities), Trace_Costs.tla",
+        "TLC checks in exact integer arithmetic, on every slice and split of every lattice matrix, that the "
+        "squared CUSUM equals the squared-error change score, that the L2 saving is the saving at mean 0, "
+        "that the optimum never exceeds a fixed parameter, that splitting never increases the optimal cost "
+        "(variance decomposition for the Gaussian costs) and that statistics are additive over pooled rows; "
+        "the three adapters over all built-in cost kinds and over a user-defined integer cost, CUSUM and "
+        "L2Saving are then evaluated on ALL admissible 3- and 4-point cuts of every emitted matrix and "
+        "compared with differences of the specification's cost values; larger lattice data by Trace_Costs.",
+        "As C01; the step from the variance decomposition to the Gaussian cost inequality is concavity of log "
+        "(stated in the module, then checked on the implementation's values >= -1e-9).",
+        "TLA+ exact identities checked with TLC + exact-statistics replay + trace validation",
+    ),
 }
 
 NOT_YET = {}
